@@ -171,6 +171,7 @@ inductive Ev
   | joinFail (a : Nat) (h : Nat)                    -- `p_uthread_join` whose `pthread_join` fails
   | tlsFail (t : Nat) (k : Nat) (get : Bool)        -- a TLS call whose lazy `pthread_key_create` fails
   | currentFail (t : Nat)                           -- `p_uthread_current` whose fresh handle cannot be stored: NULL
+  | storeFail (t : Nat) (k : Nat) (replace : Bool)  -- `set_local` / `replace_local` whose `pthread_setspecific` fails
   | startUnstored (t : Nat)                         -- the proxy's own TLS store does not take (`is_stored == FALSE`)
   | retUnstored (t : Nat) (h : Nat)                 -- the function of such a thread returns: the proxy unrefs `h`
   deriving DecidableEq, Repr
@@ -493,6 +494,16 @@ def replaceLocal (s : State) (t : Nat) (k : Nat) (v : Nat) : Except Err State :=
       dtorLog := s.dtorLog ++ notifyOld s t k n replaceCallsNotifier
       tls := upd2 s.tls t n v }
 
+/-- `p_uthread_set_local` / `p_uthread_replace_local` (`replace`) on a resolved key when `pthread_setspecific` returns an error
+    (only `P_ERROR`): nothing is stored.  `p_uthread_replace_local` has by then already passed the old non-NULL value to the
+    notifier — `key->free_func (old_value)` precedes the store — so the destroyed value stays in the slot. -/
+def storeFail (s : State) (t : Nat) (k : Nat) (rep : Bool) : Except Err State :=
+  if ¬ canAct s t ∨ k = 0 ∨ ¬ k < s.nK then .error .notEnabled else
+  match resolve s k with
+  | .error e => .error e
+  | .ok n =>
+    .ok { s with dtorLog := s.dtorLog ++ notifyOld s t k n (if rep then replaceCallsNotifier else setCallsNotifier) }
+
 /-- `p_uthread_get_local` -/
 def getLocal (s : State) (t : Nat) (k : Nat) : Except Err State :=
   if ¬ canAct s t ∨ k = 0 ∨ ¬ k < s.nK then .error .notEnabled else
@@ -591,6 +602,7 @@ def step (s : State) : Ev → Except Err State
   | .tlsFail t k g => tlsFail s t k g
   | .currentFail t => currentFail s t
   | .startUnstored t => startUnstored s t
+  | .storeFail t k r => storeFail s t k r
   | .retUnstored t h => retUnstored s t h
 
 def run : State → List Ev → Except Err State
